@@ -50,6 +50,11 @@ def workload(ctx, g):
             text, cs = qrlib.text_of(mode, max(1, caps[v - 1][ec - 1][MODES.index(mode)] // 2), rng)
             ev.append(qrlib.enc(text, ec, vh=v + (m % 2) if v < 40 else v, mh=m, cs=cs, dec=1, chk=1 if v <= 10 else 0,
                                 img=(0, 0, 4) if m % 3 == 0 else (), tag="forced"))
+    # very large renderings: 64 pixels per module (filled regions wider than a 32-bit word, edges on word boundaries)
+    for (t, v) in (("hello world", 1), ("HELLO WORLD 0123456789 HELLO", 2)):
+        d = 17 + 4 * v + 8
+        ev.append(qrlib.enc(list(t.encode()), 1, dec=1, chk=0, img=(64 * d, 64 * d, 4), tag="large image"))
+        ev.append(qrlib.enc(list(t.encode()), 3, dec=0, chk=0, img=(33 * d + 5, 34 * d, 4), tag="large image"))
     # every byte value in byte mode (ISO-8859-1 designated), in four chunks of 64 and one symbol with all 256
     allb = "".join(chr(c) for c in range(256))
     for part in [allb[i:i + 64] for i in range(0, 256, 64)] + [allb]:
@@ -58,7 +63,11 @@ def workload(ctx, g):
     samples = [("UTF-8", "Grüße, 世界! €"), ("ISO-8859-1", "crème brûlée ÿ"), ("Shift_JIS", "日本語テキスト"), ("Shift_JIS", "abc日本語"),
                ("Shift_JIS", "ｱｲｳ"), ("ISO-8859-15", "100 € prix"), ("windows-1252", "“quoted” – dash"), ("UTF-16BE", "wide 世界"),
                ("EUC-KR", "한국어 텍스트"), ("GB18030", "中文文本"), ("Big5", "繁體中文"), ("UTF-8", "12345"), ("ISO-8859-1", "ABC-123"),
-               ("", "plain ascii text"), ("", "ÀÉÎÕÜ mixed ßøå 12"), ("", "こんにちは世界"), ("", "\U0001f600 emoji \U0001f680"), ("", "\U00020bb7"), ("", "Yoshinoya \U00020bb7 2024"), ("", "\U00020820\U00020bb7"), ("", "a"), ("", "7"), ("", "Z")]
+               ("", "plain ascii text"), ("", "ÀÉÎÕÜ mixed ßøå 12"), ("", "こんにちは世界"), ("", "\U0001f600 emoji \U0001f680"), ("", "\U00020bb7"), ("", "Yoshinoya \U00020bb7 2024"), ("", "\U00020820\U00020bb7"), ("", "a"), ("", "7"), ("", "Z"),
+               # characters above U+00FF whose LOW byte is a digit / a capital / one of the nine alphanumeric-mode signs: byte mode all the same
+               ("", "беда" * 50), ("", "абвгдежзий"), ("", "стуфхцчшщъ"), ("", "中"), ("", "ああああ"), ("", "жиг"), ("", "ĀāĂ0"), ("", "Ａ１"),
+               # a byte-order mark or the replacement character as CONTENT
+               ("", "\ufeffhello"), ("", "\ufeff日本"), ("", "a\ufffdb"), ("", "\ufffd"), ("", "café \ufffd 日本")]
     for i, (cs, t) in enumerate(samples):
         for ec in ((1, 3) if ctx.quick else (1, 2, 3, 4)):
             ev.append(qrlib.enc(list(t.encode("utf-8")), ec, cs=cs, dec=1, chk=1, img=(0, 0, 4) if i % 2 == 0 else (90, 70, 6), tag="charset"))
